@@ -157,15 +157,18 @@ def suite_indices(seed, tier):
     t_dunn, t_terms, meta = [], [], []
     n_cases = 40 if tier == "quick" else 800
     for k in range(n_cases):
-        if k < (1 if tier == "quick" else 6):
-            # tall clusters: column sums beyond the uint8 range, small cluster first
+        tall = k < (2 if tier == "quick" else 8)
+        if tall:
+            # tall clusters: column sums beyond the uint8 range. Even k: a small cluster first;
+            # odd k: two clusters below 256 members whose sums together exceed 255 in the dense
+            # columns, then a bigger one (a narrow accumulator wraps before it is widened)
             nf = 16
-            sizes = [60, 300, 100]
+            sizes, dens = ([60, 300, 100], (0.5, 0.95, 0.3)) if k % 2 == 0 else ([200, 180, 300], (0.8, 0.8, 0.8))
             nrng = np.random.default_rng(rng.randint(0, 2 ** 31))
-            A = np.vstack([(nrng.random((n, nf)) < p).astype(np.uint8)
-                           for n, p in zip(sizes, (0.5, 0.95, 0.3))])
+            A = np.vstack([(nrng.random((n, nf)) < p).astype(np.uint8) for n, p in zip(sizes, dens)])
             rows = A.tolist()
-            clusters = [list(range(0, 60)), list(range(60, 360)), list(range(360, 460))]
+            b0, b1, b2 = sizes[0], sizes[0] + sizes[1], sum(sizes)
+            clusters = [list(range(0, b0)), list(range(b0, b1)), list(range(b1, b2))]
         else:
             nf, rows, clusters = gen_clustering(rng)
         A = np.array(rows, dtype=np.uint8)
@@ -183,9 +186,12 @@ def suite_indices(seed, tier):
                               "clusters": cls})
             vals[name] = vu
             # permutations of clusters and of rows within a cluster
-            for _ in range(2):
-                perm = list(range(len(U)))
-                rng.shuffle(perm)
+            import itertools
+            perms = [list(q) for q in itertools.permutations(range(len(U)))] if tall else [None, None]
+            for perm in perms:
+                if perm is None:
+                    perm = list(range(len(U)))
+                    rng.shuffle(perm)
                 U2 = []
                 for i in perm:
                     idx = list(range(len(U[i])))
